@@ -5,6 +5,9 @@ import PyModeS.Tie.Basic
 import PyModeS.Generated.Src.bds53
 import Mathlib.Tactic.SplitIfs
 
+-- symbolic execution of long generated `do` blocks: generous but finite budget (proof times are seconds)
+set_option maxHeartbeats 1000000
+
 set_option linter.unusedSimpArgs false
 set_option linter.unusedTactic false
 set_option linter.unreachableTactic false
